@@ -32,7 +32,8 @@ class DictAdapter(Adapter):
 
     @classmethod
     def items(cls, value, node):
-        if node is None or not isinstance(node, ast.Dict):
+        if node is None or not isinstance(node, ast.Dict) or None in node.keys:
+            # `**` star-expressions: the values can not be mapped to nodes
             return [Item(value=value, node=None) for value in value.values()]
 
         result = []
